@@ -15,7 +15,9 @@ Theorem C09_cond_passthrough_aligned records ks out cap :
 Proof. exact (merge_aligned records ks out cap). Qed.
 Print Assumptions C09_cond_passthrough_aligned.
 
-(* REFUTED in general (finding S2): outside of the guard the merge indexes out of range *)
+(* REFUTED in general on the SHIPPED tree (finding S2): outside of the guard the merge indexes out
+   of range.  (The model carries one flag per repair, record fixes; the harness probes which variant
+   the tree under test shows.) *)
 Theorem C09_no_panic_processor_replies_cond_refuted records ks out cap :
   guard ks (length out) = false -> merge records out cap (idx_false ks 0) = Panic SCondMerge.
 Proof. exact (merge_panics records ks out cap). Qed.
@@ -30,7 +32,8 @@ Theorem C09_process_cond_spec c p records w r w' :
   let ks := cond_keeps p records in
   let kept := select ks records in
   let e := negb (length ks =? length records) in
-  let out := fst (plugin_reply p (nth p (c_procs c) (mkProc false [])) (nth p (w_pcalls w) 0) kept) in
+  let out0 := fst (plugin_reply p (nth p (c_procs c) (mkProc false [])) (nth p (w_pcalls w) 0) kept) in
+  let out := padded (fx_cond_pad (c_fix c)) (length kept) out0 in
   match kept with
   | [] =>
       r = Ok (if length (idx_false ks 0) =? length records then map PSingle records
@@ -40,7 +43,7 @@ Theorem C09_process_cond_spec c p records w r w' :
                    end)
       \/ (guard ks (length (merge_input e [])) = false /\ r = Panic SCondMerge)
   | _ :: _ =>
-      if length kept <? length out then r = Ok [PError EEng]
+      if length kept <? length out0 then r = Ok [PError EEng]
       else if length (idx_false ks 0) =? length records then r = Ok (map PSingle records)
       else match idx_false ks 0 with
            | [] => r = Ok (merge_input e out)
@@ -52,11 +55,23 @@ Theorem C09_process_cond_spec c p records w r w' :
 Proof. exact (process_cond_spec c p records w r w'). Qed.
 Print Assumptions C09_process_cond_spec.
 
-(* the concrete witness replayed on the real code: condition true for records 0 and 2 of 4, one
-   result for the two kept records *)
+(* REPAIRED tree (9c711ed): with the padding, Process does not panic for ANY plugin reply, any
+   condition pattern (evaluation errors included), any slice capacity - no guard left *)
+Theorem C09_no_panic_processor_replies_cond_repaired c p records w r w' :
+  fx_cond_pad (c_fix c) = true -> process c p records w = (r, w') -> forall s, r <> Panic s.
+Proof. exact (process_no_panic_repaired c p records w r w'). Qed.
+Print Assumptions C09_no_panic_processor_replies_cond_repaired.
+
+(* the concrete witness on the shipped tree: condition true for records 0 and 2 of 4, one
+   result for the two kept records; and the same input on the repaired tree *)
 Theorem C09_no_panic_processor_replies_refuted :
-  exists c, wf_source c = true /\ snd (run_case c) = TPanic.
-Proof. exists s2_cfg. split; [reflexivity | exact s2_panics]. Qed.
+  exists c, c_fix c = fixes_none /\ wf_source c = true /\ snd (run_case c) = TPanic /\
+            snd (run_case (with_fix c fixes_all)) = TOk /\
+            acked_keys (fst (run_case (with_fix c fixes_all))) = src_keys c.
+Proof.
+  exists s2_cfg. split; [reflexivity|]. split; [reflexivity|]. split; [exact s2_panics|].
+  destruct s2_repaired as [A [B _]]. split; [exact A|exact B].
+Qed.
 Print Assumptions C09_no_panic_processor_replies_refuted.
 
 (* ---- ProcessorTask.Do ---- *)
@@ -67,23 +82,42 @@ Print Assumptions C09_no_panic_processor_replies_refuted.
    in any mix and order - that is not longer than nIn is marked without a panic.  The two
    hypotheses that matter are exactly the two shapes refuted below: "not longer than nIn" (more
    results than records) and WF (a record without run has a non-nil position). *)
-Theorem C09_no_panic_processor_replies b h nIn out :
+Theorem C09_no_panic_processor_replies fx b h nIn out :
   WF b h -> filterCount b = count_filter (statuses b) -> nIn <= nf (statuses b) -> length out <= nIn ->
-  forall s, proc_do b h nIn out <> Panic s.
-Proof. exact (proc_do_no_panic b h nIn out). Qed.
+  forall s, proc_do fx b h nIn out <> Panic s.
+Proof. exact (proc_do_no_panic fx b h nIn out). Qed.
 Print Assumptions C09_no_panic_processor_replies.
 
-(* two reply shapes that do panic on the unchanged tree *)
+(* REPAIRED tree (dc704b4): the length hypothesis is gone - a result vector of any length and any
+   content is marked, or refused, without a panic *)
+Theorem C09_no_panic_processor_replies_repaired fx b h nIn out :
+  fx_more fx = true ->
+  WF b h -> filterCount b = count_filter (statuses b) -> nIn <= nf (statuses b) ->
+  forall s, proc_do fx b h nIn out <> Panic s.
+Proof. exact (proc_do_no_panic_repaired fx b h nIn out). Qed.
+Print Assumptions C09_no_panic_processor_replies_repaired.
+
+(* two reply shapes that do panic on the shipped tree; on the repaired tree (dc704b4, 873ce43) the
+   same inputs end in a refusal with nothing acked *)
 
 Theorem C09_more_results_than_records_refuted :
-  exists c, wf_source c = true /\ snd (run_case c) = TPanic /\
-            c_procs c = [mkProc false [mkReply [KSame; KSame; KFilter] 0 false 0]].
-Proof. exists more_cfg. split; [reflexivity|]. split; [exact more_results_panics|reflexivity]. Qed.
+  exists c, c_fix c = fixes_none /\ wf_source c = true /\ snd (run_case c) = TPanic /\
+            c_procs c = [mkProc false [mkReply [KSame; KSame; KFilter] 0 false 0]] /\
+            snd (run_case (with_fix c fixes_all)) = TErr false CNone /\
+            acked_keys (fst (run_case (with_fix c fixes_all))) = [].
+Proof.
+  exists more_cfg. split; [reflexivity|]. split; [reflexivity|]. split; [exact more_results_panics|].
+  split; [reflexivity|]. exact more_results_repaired.
+Qed.
 Print Assumptions C09_more_results_than_records_refuted.
 
 Theorem C09_nil_source_position_split_refuted :
-  exists c, snd (run_case c) = TPanic /\ map rpos (c_recs c) = [None; Some [1]].
-Proof. exists nilpos_cfg. split; [exact nil_position_split_panics|reflexivity]. Qed.
+  exists c, c_fix c = fixes_none /\ snd (run_case c) = TPanic /\ map rpos (c_recs c) = [None; Some [1]] /\
+            run_case (with_fix c fixes_all) = ([], TErr false CEmptyPos).
+Proof.
+  exists nilpos_cfg. split; [reflexivity|]. split; [exact nil_position_split_panics|].
+  split; [reflexivity|exact nil_position_repaired].
+Qed.
 Print Assumptions C09_nil_source_position_split_refuted.
 
 (* ---- DestinationTask.Do ---- *)
@@ -95,12 +129,26 @@ Theorem C09_no_panic_destination_acks c d b wev :
 Proof. exact (dest_do_no_panic c d b wev). Qed.
 Print Assumptions C09_no_panic_destination_acks.
 
-(* REFUTED (finding S3): a refusal-worthy reply - empty ack lists - is not refused; the records
-   are acked to the source without any confirmation *)
+(* REFUTED on the shipped tree (finding S3): a refusal-worthy reply - empty ack lists - is not
+   refused; the records are acked to the source without any confirmation.  On the repaired tree
+   (a135bc8) the same input is refused at the first empty reply and nothing is acked. *)
 Theorem C09_refusal_leaves_unacked_refuted :
-  exists c, wf_source c = true /\ snd (run_case c) = TOk /\ mon09 c (run_case c) = false.
-Proof. exists s3_cfg. repeat split; vm_compute; reflexivity. Qed.
+  exists c, c_fix c = fixes_none /\ wf_source c = true /\ snd (run_case c) = TOk /\ mon09 c (run_case c) = false /\
+            run_case (with_fix c fixes_all) = ([EvWrite [([0], [0]); ([1], [1])]; EvDAck []], TErr false CNone).
+Proof. exists s3_cfg. split; [reflexivity|]. split; [reflexivity|]. split; [vm_compute; reflexivity|].
+  split; [vm_compute; reflexivity|exact s3_repaired]. Qed.
 Print Assumptions C09_refusal_leaves_unacked_refuted.
+
+(* REPAIRED tree: refusal_leaves_unacked for DestinationTask.Do - it returns nil only if the acks
+   it received, all of them and in order, match the positions of the written records one by one and
+   are at least as many; every other reply is refused before any record of the batch is acked *)
+Theorem C09_refusal_leaves_unacked_repaired c d ps :
+  fx_emptyack (c_fix c) = true ->
+  forall n b k w b' all w',
+    dest_loop c d b ps k n w = (Ok (b', all), w') ->
+    acks_match all (skipn k ps) = true /\ length ps <= k + length all.
+Proof. exact (dest_loop_confirmed c d ps). Qed.
+Print Assumptions C09_refusal_leaves_unacked_repaired.
 
 (* what does hold for every configuration: the coded refusal of an empty position leaves it
    unacknowledged - no Source.Ack call ever carries an empty position *)
@@ -140,25 +188,31 @@ Theorem C09_v1_nacked_never_forwarded :
 Proof. exact v1_nacked_never_forwarded. Qed.
 Print Assumptions C09_v1_nacked_never_forwarded.
 
-(* REFUTED on the unchanged tree (finding S3, classic engine): one message, one EMPTY Ack() reply:
+(* REFUTED on the shipped tree (finding S3, classic engine): one message, one EMPTY Ack() reply:
    acks[0] panics in the worker goroutine of stream.DestinationAckerNode *)
 Theorem C09_v1_acker_empty_reply_refuted :
-  exists (q : list amsg) (script : list areply), acker_run q script = V1Panic SiteAcks0.
+  exists (q : list amsg) (script : list areply), acker_run false q script = V1Panic SiteAcks0.
 Proof. exact v1_acker_empty_reply_refuted. Qed.
 Print Assumptions C09_v1_acker_empty_reply_refuted.
 
 (* under the precise guard - no Ack() reply is an empty list - the node never panics: wrong,
    duplicate, out-of-order positions, too many acks, errors are all refused *)
 Theorem C09_v1_acker_no_panic_nonempty :
-  forall (q : list amsg) (script : list areply),
-    Forall (fun r => r <> RAcks []) script -> exists o, acker_run q script = V1Ok o.
+  forall fx (q : list amsg) (script : list areply),
+    Forall (fun r => r <> RAcks []) script -> exists o, acker_run fx q script = V1Ok o.
 Proof. exact v1_acker_no_panic_nonempty. Qed.
 Print Assumptions C09_v1_acker_no_panic_nonempty.
 
+(* REPAIRED tree (a135bc8): the guard is gone - the node never panics, whatever the destination replies *)
+Theorem C09_v1_acker_no_panic_repaired :
+  forall (q : list amsg) (script : list areply), exists o, acker_run true q script = V1Ok o.
+Proof. exact v1_acker_no_panic_repaired. Qed.
+Print Assumptions C09_v1_acker_no_panic_repaired.
+
 (* a message is acked only if the destination sent, in order, a positive ack with its position *)
 Theorem C09_v1_acker_acked_confirmed :
-  forall (q : list amsg) (script : list areply) st t i m,
-    acker_run q script = V1Ok (st, t) ->
+  forall fx (q : list amsg) (script : list areply) st t i m,
+    acker_run fx q script = V1Ok (st, t) ->
     nth_error q i = Some m -> am_filtered m = false -> nth_error st i = Some SAcked ->
     nth_error (ack_stream script) (unfiltered_before q i) = Some (am_pos m, false).
 Proof. exact v1_acker_acked_confirmed. Qed.
